@@ -23,6 +23,9 @@ CONSTANTS
   FlushEntry = TRUE
   UnmapOnDrop = TRUE
   Linear = TRUE
+  AllowNested = FALSE
+  OthersCall = "never"
+  KeepPagesWritable = FALSE
   MaxLives = 2
 ACTION_CONSTRAINT AtomicAC
 INVARIANT Emit
